@@ -296,10 +296,6 @@ theorem validate2_tv
       · exact precededBy_mem (by decide) (hprec p.cls).1 (hrn ▸ hs)
       · exact precededBy_mem (by decide) (hprec p.cls).2 (hrn ▸ hs)
     have := hpre idRule hidmem
-    simp only [idRule, Rule.check] at this
-    split at this
-    · rename_i hx
-      simpa using hx
-    · cases this
+    simpa [idRule] using Rule.check_type_any this
 
 end PM.Val
